@@ -351,7 +351,9 @@ def build_vmdk(lines=VMDK_DEFAULT_LINES, version=1, capacity=20480,
     hdr = vmdk_header(sig=sig, version=version, capacity=capacity,
                       desc_off=desc_off, desc_num=dnum, gd=gd, fill=hdr_fill)
     buf = bytearray(hdr)
-    start = desc_off * 512 if desc_off * 512 <= 4 * MI else 512
+    # the text never overwrites the header: a header pointing at sector 0
+    # (or far away) is hostile, the descriptor itself still sits at sector 1
+    start = desc_off * 512 if 512 <= desc_off * 512 <= 4 * MI else 512
     if len(buf) < start:
         buf.extend(rnd(fill + 7, start - len(buf)))
     if dnum <= 4096:
